@@ -77,14 +77,45 @@ func (w *iw) Write(buf []byte) (int, error) {
 		lines = append([][]byte{{}}, lines...)
 	}
 	joined := bytes.Join(lines, w.prefix)
+	was := w.partial
 	w.partial = joined[len(joined)-1] != '\n'
 
 	n, err := w.w.Write(joined)
 	if err != nil {
+		// The caller may go on writing: the line state is that of the
+		// bytes that got through, not that of the whole of buf.
+		w.partial = partialAfter(n, len(w.prefix), lines, was)
 		return actualWrittenSize(n, len(w.prefix), lines), err
 	}
 
 	return len(buf), nil
+}
+
+// partialAfter returns the line state after the underlying writer took the
+// first underlay bytes of lines joined by the prefix: true if the current
+// output line already carries its prefix.
+func partialAfter(underlay, prefix int, lines [][]byte, was bool) bool {
+	if underlay <= 0 {
+		return was
+	}
+	remain := underlay
+	for i, line := range lines {
+		if i > 0 {
+			if remain < prefix {
+				return false // cut inside the prefix
+			}
+			remain -= prefix
+			if remain == 0 {
+				return true // exactly after the prefix
+			}
+		}
+		if remain <= len(line) {
+			return line[remain-1] != '\n'
+		}
+		remain -= len(line)
+	}
+	last := lines[len(lines)-1]
+	return last[len(last)-1] != '\n'
 }
 
 func actualWrittenSize(underlay, prefix int, lines [][]byte) int {
